@@ -149,6 +149,17 @@ class HilbertClimateNetwork(ClimateNetwork):
             if directed:
                 self.adjacency = self.adjacency * (self.phase_shift() > 0)
 
+    def set_threshold(self, threshold):
+        """
+        Generate the network by thresholding the coherence matrix; directed
+        networks keep only links with positive average phase shift.
+
+        :arg float threshold: the threshold used to generate the network.
+        """
+        ClimateNetwork.set_threshold(self, threshold)
+        if self.directed and self._coherence_phase is not None:
+            self.adjacency = self.adjacency * (self.phase_shift() > 0)
+
     def set_directed(self, directed):
         """
         Switch between directed and undirected Hilbert climate network.
